@@ -88,7 +88,7 @@ struct subscriber_key {
  */
 struct pool_assignment {
 	__u32 pool_id;          /* Which IP pool */
-	__u32 allocated_ip;     /* Currently assigned IP (network byte order) */
+	__u32 allocated_ip;     /* Currently assigned IP (host-order number, as IPToUint32 writes it) */
 	__u32 vlan_id;          /* VLAN tag for subscriber (deprecated, use s_tag/c_tag) */
 	__u8  client_class;     /* Residential=1, Business=2, etc. */
 	__u64 lease_expiry;     /* Unix timestamp (seconds) */
@@ -133,12 +133,12 @@ struct {
  * Value: ip_pool struct
  */
 struct ip_pool {
-	__u32 network;          /* Network address (e.g., 10.0.0.0) */
+	__u32 network;          /* Network address (e.g., 10.0.0.0), host-order number */
 	__u8  prefix_len;       /* CIDR prefix (e.g., 24 for /24) */
 	__u8  _pad1[3];
-	__u32 gateway;          /* Default gateway for pool */
-	__u32 dns_primary;      /* Primary DNS server */
-	__u32 dns_secondary;    /* Secondary DNS server */
+	__u32 gateway;          /* Default gateway for pool, host-order number */
+	__u32 dns_primary;      /* Primary DNS server, host-order number */
+	__u32 dns_secondary;    /* Secondary DNS server, host-order number */
 	__u32 lease_time;       /* Default lease duration (seconds) */
 	__u32 _pad2;
 } __attribute__((packed));
@@ -154,7 +154,7 @@ struct {
 struct dhcp_server_config {
 	__u8  server_mac[6];    /* Server's MAC address */
 	__u8  _pad[2];
-	__u32 server_ip;        /* Server's IP address (network byte order) */
+	__u32 server_ip;        /* Server's IP address (host-order number, as IPToUint32 writes it) */
 	__u32 interface_index;  /* Interface index for XDP */
 } __attribute__((packed));
 
